@@ -287,13 +287,16 @@ static void render_paths(const std::basic_string<C> &p) {
         size_t             a = p.empty() ? 0 : size_t(h % (p.size() + 1)), b = p.empty() ? 0 : size_t((h >> 16) % (p.size() + 1));
         if (a > b) std::swap(a, b);
         q = p.substr(0, a) + W<C>(groups[(h >> 32) % 14]) + p.substr(a, b - a) + W<C>(groups[(h >> 40) % 14]) + p.substr(b);
-        Value<C> v;
-        v[W<C>("ph").c_str()] = String<C>((const C *)q.data(), SizeT(q.size()));
-        v[W<C>("x").c_str()]  = W<C>("Z").c_str();
-        S out                 = render(one + W<C>("{svar:ph, {var:x}}") + two, v);
-        if (!between(out, seg)) vf::fail("c03:svar-phrase-braces:sentinels-lost", "phrase=%s", vf::show(q.data(), q.size()).c_str());
-        else check_escaped(q, seg, "svar-phrase-braces");
-        vf::count("svar_brace_phrases");
+        // (a lone "{" and a lone "}" around a payload "0" would form the real hole {0}: such phrases are left out)
+        if (q.find(W<C>("{0}")) == S::npos) {
+            Value<C> v;
+            v[W<C>("ph").c_str()] = String<C>((const C *)q.data(), SizeT(q.size()));
+            v[W<C>("x").c_str()]  = W<C>("Z").c_str();
+            S out                 = render(one + W<C>("{svar:ph, {var:x}}") + two, v);
+            if (!between(out, seg)) vf::fail("c03:svar-phrase-braces:sentinels-lost", "phrase=%s", vf::show(q.data(), q.size()).c_str());
+            else check_escaped(q, seg, "svar-phrase-braces");
+            vf::count("svar_brace_phrases");
+        }
     }
     // (d) echoed source of an unresolved {var:<payload>}: only payloads that cannot end the tag or index into a value
     {
